@@ -9,6 +9,7 @@ Ev == Trace[l]
 IsEvent(e) == l <= Len(Trace) /\ Ev.op = e /\ l' = l + 1
 Idle == [op |-> "idle"]
 Cleanup  == {"file.Close"}
+ReadOnly == {"readerat.ReadAt", "file.Read", "file.ReadAt", "file.Stat", "fs.Open", "fs.Stat"}
 Mutating == {"fs.OpenFile", "fs.Create", "file.Write", "file.WriteAt", "file.Truncate", "fs.Remove", "fs.Rename", "file.WriteString"}
 
 Reset == IsEvent("reset") /\ cur' = Idle /\ deps' = <<>> /\ fpos' = 0
@@ -22,8 +23,8 @@ End == /\ IsEvent("end") /\ cur # Idle
           THEN /\ Ev.res = "ok"                                     \* fault-free run succeeds (sanity of the driver)
                /\ (cur.api = "signimage" => Ev.sigdelta = 1)
           ELSE /\ \/ Ev.res = "error" \/ (cur.api = "hashimage" /\ Ev.res = "nil")               \* never success, never a wrong value
-                  \/ (cur.kind \in {"eof", "partial"} /\ Ev.res = "ok")      \* a short count with io.EOF may be a legitimate end of file: then the result must be the correct one (the harness reports "ok" only after comparing it with the fault-free result)
-               /\ (~(cur.kind \in {"eof", "partial"} /\ Ev.res = "ok") => \A i \in (fpos + 1)..Len(deps) : deps[i] \in Cleanup)   \* nothing but cleanup after the fault
+                  \/ (cur.kind \in {"eof", "eof1", "eof0", "partial"} /\ Ev.res = "ok")      \* a short count with io.EOF may be a legitimate end of file: then the result must be the correct one (the harness reports "ok" only after comparing it with the fault-free result)
+               /\ (~(cur.kind \in {"eof", "eof1", "eof0", "partial"} /\ Ev.res = "ok") => \A i \in (fpos + 1)..Len(deps) : deps[i] \in Cleanup \cup ReadOnly)   \* after the fault: cleanup and reads only - nothing is signed, opened for writing or written
                /\ (deps[fpos] = "signer.Sign" => ~(\E i \in 1..Len(deps) : deps[i] \in Mutating))  \* failed signing writes nothing
                /\ (cur.api = "signimage" /\ Ev.res # "ok" => Ev.sigdelta = 0 /\ Ev.bytes_same)   \* image object without a new signature
                /\ Ev.value_returned = FALSE
